@@ -177,7 +177,7 @@ func C11(tier Tier) int {
 	}
 	start := time.Now()
 	o := &Outcome{Property: "C11", Tier: tier, Level: "exploration", Start: start,
-		Coverage: map[string]interface{}{"evaluations": 1, "distinct_nontrivial": 2, "rule": "worker subprocess died", "samples": []interface{}{tail}, "exhaustive": false},
+		Coverage:   map[string]interface{}{"evaluations": 1, "distinct_nontrivial": 2, "rule": "worker subprocess died", "samples": []interface{}{tail}, "exhaustive": false},
 		Violations: []Viol{{Property: "C11", Clause: "resource", Sig: "worker-died", Detail: "the enumeration worker died with an unrecoverable runtime error (address-space limit 16 GiB): " + tail, Kind: "case", Replay: tail}}}
 	return Finish(o)
 }
